@@ -356,7 +356,7 @@ def run(tier):
                 "non-trivial = schedules in which two merge bodies or a forward and a backward pass actually overlapped",
         "samples": samples, "exhaustive": all_complete and not errors,
         "jobs": per_job, "canonical_runs_N1_to_64": canon_runs, "tsan_free_running_runs": tsan_runs,
-        "libgomp_sample_runs_not_deciding": gomp_runs, "scheduler_selftest_ok": selftest_ok,
+        "libgomp_sample_runs_not_deciding": gomp_runs, "scheduler_selftest_ok": selftest_ok, "phase_seconds": phases,
         "scheduler_selftest_schedules": selftest_execs,
         "promela_model_conformance": conf,
         "model_traces_counted_against_impl": sum(r["model_paths"] for r in conf if r["agree"]),
